@@ -224,6 +224,14 @@ def oracle(case, R):
     # --- SolveUnc
     dref, vref, aref, cnd = reference(S, freq, incrb, rfdo, direct_rb=False)
     ref_phys = (tr(dref), tr(vref), tr(aref))
+    rb_list, rf_list = rb_in, rf_in
+    rb_in, l1 = util.partition_form(rb_list, n, case.get("ppack", "list"), case["seed"] + 31)
+    rf_in, l2 = util.partition_form(rf_list, n, case.get("ppack", "list"), case["seed"] + 32)
+    if case.get("rb_perm") and rb_list:
+        rb_in, l1 = np.array(rb_list)[case["rb_perm"]], "listed"
+    if case.get("rf_perm") and rf_list:
+        rf_in, l2 = np.array(rf_list)[case["rf_perm"]], "listed"
+    R.label("partition:" + (l1 if l1 != "asis" else l2))
     kw = dict(rb=rb_in, rf=rf_in, pre_eig=bool(case.get("pre_eig")))
     # the same object may be set up for time-domain use (step h: conjugate eigenpairs are trimmed and have to
     # be restored for the frequency-domain solve) and may already have solved a transient
@@ -450,6 +458,7 @@ def freq_cases(draw, form, psd=False):
             "rf_disp_only": draw(st.booleans()), "rb_given": draw(st.booleans()), "bvec": draw(st.booleans()),
             "kvec": draw(st.booleans()), "pre_eig": pre_eig, "cpl": draw(st.sampled_from([0.05, 0.3, 0.8]))}
     case["fpack"] = draw(st.sampled_from(["same", "same", "int", "list", "fortran", "strided", "readonly"]))
+    case["ppack"] = draw(st.sampled_from(util.PART_FORMS))
     case["freq_list"] = draw(st.booleans())
     if not hyst and not case["cmass"] and not psd and draw(st.booleans()):
         case["h"] = draw(st.sampled_from([0.01, 0.001, 0.1]))
@@ -470,7 +479,38 @@ def freq_cases(draw, form, psd=False):
     return case
 
 
+def enum_partitions(shard, nshards, tier):
+    """block layouts x every listing order of a 4-mode residual-flexibility set and a 2-mode rigid-body set:
+    uncoupled and coupled damping, the three blocks in every order (all partitions contiguous) and interleaved"""
+    i = 0
+    blocks = {"rb": [{"reg": "rb", "m": 1.0}, {"reg": "rb", "m": 0.5}],
+              "el": [{"reg": "el", "m": 1.0, "f": 1.3, "zeta": 0.02, "eta": 0.0},
+                     {"reg": "el", "m": 2.0, "f": 3.1, "zeta": 0.1, "eta": 0.0}],
+              "rf": [{"reg": "rf", "m": 1.0, "f": 40.0 * (1 + 0.37 * j), "zeta": 0.02, "eta": 0.0} for j in range(4)]}
+    layouts = [list(p) for p in itertools.permutations(["rb", "el", "rf"])] + [["mixed"]]
+    for form in ("diag", "nonprop"):
+        for lay in layouts:
+            if lay == ["mixed"]:
+                modes = [blocks["rf"][0], blocks["rb"][0], blocks["el"][0], blocks["rf"][1], blocks["rf"][2],
+                         blocks["el"][1], blocks["rb"][1], blocks["rf"][3]]
+            else:
+                modes = [md for b_ in lay for md in blocks[b_]]
+            for rfp in itertools.permutations(range(4)):
+                for rbp in ([0, 1], [1, 0]):
+                    i += 1
+                    if i % nshards != shard:
+                        continue
+                    mform = ["vec", "mat", "none"][i % 3] if form == "diag" else "mat"
+                    yield {"form": form, "modes": [dict(md, m=1.0) if mform == "none" else dict(md) for md in modes],
+                           "freq": [0.0, 0.7, 1.31, 5.0], "seed": i, "mform": mform, "hyst": False,
+                           "cmass": False, "cforce": bool(i % 2), "incrb": LETTERS[i % len(LETTERS)],
+                           "rf_disp_only": bool((i // 2) % 2), "rb_given": True, "bvec": bool(i % 2),
+                           "kvec": bool((i // 3) % 2), "pre_eig": False, "cpl": 0.3, "fpack": "same",
+                           "freq_list": False, "rf_perm": list(rfp), "rb_perm": rbp}
+
+
 PARTS = [
+    Part("partition_grid", oracle, enum=enum_partitions, quick=(8, None), thorough=(8, None), exhaustive=True),
     Part("diag", oracle, strategy=lambda: freq_cases("diag"), quick=(8, 150), thorough=(16, 3000)),
     Part("nonprop", oracle, strategy=lambda: freq_cases("nonprop"), quick=(4, 120), thorough=(16, 1500)),
     Part("physical", oracle, strategy=lambda: freq_cases("physical"), quick=(4, 120), thorough=(16, 1500)),
